@@ -18,6 +18,7 @@ type c06Case struct {
 	Text  string `json:"text,omitempty"`  // string: text handed to the parser
 	Kind  string `json:"kind,omitempty"`  // reduce: jn / or
 	Parts []Loc  `json:"parts,omitempty"` // reduce: arguments (each built through the constructors)
+	Off   int    `json:"off,omitempty"`   // value, reduce: every coordinate is moved by this amount (coordinates beyond 2^31, 2^32, 2^53)
 }
 
 // printFixedPoint: s must parse, and the parse must print as s again.
@@ -44,6 +45,10 @@ func c06Check(c c06Case) *Violation {
 	switch c.Mode {
 	case "value":
 		var v gts.Location
+		if c.Off != 0 {
+			moved := shiftLoc(*c.Loc, c.Off)
+			c.Loc = &moved
+		}
 		if pi := guard(func() { v = toGts(*c.Loc) }); pi != nil {
 			return panicViolation("constructors", pi)
 		}
@@ -178,6 +183,9 @@ func c06Classify(c c06Case) (bool, []string) {
 	case "value":
 		ast, _ := fromGts(toGts(*c.Loc))
 		labels := []string{"value", "kind:" + ast.K, fmt.Sprintf("depth=%d", ast.depth())}
+		if c.Off != 0 {
+			labels = append(labels, "coordinates-beyond-2^31")
+		}
 		reduced := len(ast.leaves()) < len(c.Loc.leaves())
 		if reduced {
 			labels = append(labels, "reduction-fired")
@@ -228,6 +236,10 @@ func c06KF(c c06Case, v *Violation) []string {
 			}
 		}
 	case "value":
+		if c.Off != 0 {
+			moved := shiftLoc(*c.Loc, c.Off)
+			c.Loc = &moved
+		}
 		if v.Kind == "fixed-point" || v.Kind == "denotation" {
 			// the value itself is not fully reduced (one more pass of the same rules changes it): reducer not idempotent
 			r1, _ := reduceSim(*c.Loc)
@@ -333,7 +345,7 @@ func c06Gen(t *rapid.T) c06Case {
 	switch rapid.IntRange(0, 2).Draw(t, "mode") {
 	case 0:
 		raw := cfg.node(t, 3)
-		return c06Case{Mode: "value", Loc: &raw}
+		return c06Case{Mode: "value", Loc: &raw, Off: rapid.SampledFrom([]int{0, 0, 0, 1<<31 - 3, 1 << 31, 1<<32 - 1, 1 << 53, 1 << 62}).Draw(t, "off")}
 	case 1:
 		s := c06GenText(t, 3)
 		if rapid.IntRange(0, 2).Draw(t, "noise") == 0 {
@@ -389,6 +401,9 @@ func TestC06(t *testing.T) {
 				v := Loc{K: kind, Parts: []Loc{a, b}}
 				cv := lco(v)
 				if !e.try(c06Case{Mode: "value", Loc: &v}) || !e.try(c06Case{Mode: "value", Loc: &cv}) {
+					return
+				}
+				if !e.try(c06Case{Mode: "value", Loc: &v, Off: 1<<31 - 2}) || !e.try(c06Case{Mode: "value", Loc: &cv, Off: 1 << 53}) {
 					return
 				}
 			}
